@@ -267,6 +267,16 @@ func (p *jsonPathParser) setLastNodeText(text string) {
 func (p *jsonPathParser) updateAccessorMode(checkNode syntaxNode, mode bool) {
 	for checkNode != nil {
 		checkNode.setAccessorMode(mode)
+		if multiIdentifier, ok := checkNode.(*syntaxChildMultiIdentifier); ok {
+			// The inner identifiers emit the results when the
+			// multi-identifier is the last node of the chain.
+			for _, identifier := range multiIdentifier.identifiers {
+				identifier.setAccessorMode(mode)
+			}
+			if multiIdentifier.isAllWildcard {
+				multiIdentifier.unionQualifier.setAccessorMode(mode)
+			}
+		}
 		checkNode = checkNode.getNext()
 	}
 }
